@@ -102,6 +102,7 @@ def run(F, R, ctx):
     R.floor("C01.a", "emittable opcodes", len(em), 60)
     digit_tables(F, R, vm, sb)
     primitive_tables(F, R, vm, sb)
+    flag_rule(F, R)
 
 
 def digit_tables(F, R, vm, sb):
@@ -219,3 +220,43 @@ def primitive_tables(F, R, vm, sb):
                "the interpreter arm for %s calls %s, none of which is the %s operation" % (op, cs, "/".join(toks)), vm.loc(),
                sample=True)
     R.floor("C01.p", "primitive table instances", n, 30)
+
+
+# optimisations that substitute or specialise on a definition must look at the analysis flag that says the definition is
+# assigned somewhere; instances confirmed by reading today's tree (function, flag, what it gates)
+FLAG_CONSUMERS = [
+    (r"\{impl SemanticAnalysis<'a>\}::inline_handle_define$|\{impl SemanticAnalysis\}::inline_handle_define$", "set_bang",
+     "call-site inlining of small global functions"),
+    (r"SemanticAnalysis(<'a>)?\}::recursively_inline_function_calls$", "set_bang", "recursive inlining"),
+    (r"SemanticAnalysis(<'a>)?\}::analyze_arity_checks$", "set_bang", "static arity errors / arity-check elision for known functions"),
+    (r"SemanticAnalysis(<'a>)?\}::check_define_proto_hash_get$", "set_bang", "specialisation of struct accessors"),
+    (r"\{impl VisitorMut for CodeGenerator\}::visit_atom$", "last_usage", "move (instead of copy) of a local at its last use"),
+]
+FLAG_WRITERS = [
+    (r"\{impl VisitorMutUnitRef for AnalysisPass(<'a>)?\}::visit_set$", "set_bang", "every set! marks its target as assigned"),
+    (r"\{impl VisitorMutUnitRef for AnalysisPass(<'a>)?\}::visit_(list|let|lambda_function)$", "last_usage", "last-use marking"),
+]
+
+
+def flag_rule(F, R):
+    R.rule("C01.m", "assignment / last-use awareness: the analysis records every set! (AnalysisPass::visit_set writes "
+                    "SemanticInformation.set_bang at any depth) and each optimisation that substitutes or specialises on a "
+                    "definition (confirmed list) still reads the flag before doing so; code generation reads last_usage before "
+                    "emitting a moving read")
+    for rx, flag, what in FLAG_WRITERS:
+        fns = F.find(rx)
+        if not fns:
+            raise CheckError("anchor lost: analysis writer /%s/" % rx)
+        ok = any(e[1] == "SemanticInformation" and e[2] == flag and e[3][0] in "wm" for fn in fns for _, e in lib.family_events(F, fn, "fld"))
+        R.inst("C01.m", "%s writes %s" % ("/".join(sorted(f.short() for f in fns))[:80], flag), ok,
+               "the analysis pass no longer records %s (%s)" % (flag, what), fns[0].loc(), sample=True)
+    for rx, flag, what in FLAG_CONSUMERS:
+        fns = F.find(rx)
+        if len(fns) != 1:
+            raise CheckError("anchor lost: optimisation /%s/ (found %d)" % (rx, len(fns)))
+        fn = fns[0]
+        ok = any(e[1] == "SemanticInformation" and e[2] == flag for _, e in lib.family_events(F, fn, "fld"))
+        R.inst("C01.m", "%s consults %s" % (fn.short(), flag), ok,
+               "%s (%s) no longer reads SemanticInformation.%s: it can substitute / specialise on a definition that the "
+               "program assigns later (from inside a procedure, a let or a branch), so a variable stops evaluating to the "
+               "value most recently assigned to it" % (fn.short(), what, flag), fn.loc(), sample=True)
